@@ -19,6 +19,7 @@ structure Rec (P : Prims) (V : St → List Val) : Prop where
   string : ∀ dd n s s', P.string dd n s = .ok s' → ∃ v, V s' = V s ++ [v]
   codeflag : ∀ dd n s s', P.codeflag dd n s = .ok s' → ∃ v, V s' = V s ++ [v]
   constant : ∀ dd c s s', P.constant dd c s = .ok s' → ∃ v, V s' = V s ++ [v]
+  newRefval : ∀ e n s s', P.newRefval e n s = .ok s' → s'.descs = .plain e :: s.descs ∧ ∃ v, V s' = V s ++ [v]
   lastValues : ∀ k s l, P.lastValues k s = .ok l → 1 ≤ k → k ≤ (V s).length → l = Spec.lastN k (V s)
   setRegs : ∀ s f, V (s.setRegs f) = V s
   addLink : ∀ s o, V (addLink s o) = V s
@@ -147,5 +148,12 @@ theorem SInv.ph_lt {pre : List Item} {st : FS} (h : SInv pre st) (p : Nat)
     · rw [hp] at hB; obtain ⟨rfl, _⟩ := hB; exact hl
     · rw [hp] at hB; obtain ⟨rfl, _⟩ := hB; exact hl
     · rw [hp] at hB; obtain ⟨rfl, _⟩ := hB; exact hl
+
+theorem buildBitmapped_eq' (s : St) (bm : List Val) :
+    buildBitmapped s bm =
+      (if (brFor s bm.length).length ≠ bm.length then .error .lib
+       else .ok (s.setRegs fun r => { r with backRefs := some (brFor s bm.length),
+                                             bitmapped := some (zeroSel bm (brFor s bm.length)),
+                                             bmIter := some (zeroSel bm (brFor s bm.length)) })) := rfl
 
 end Bufr.C07
